@@ -206,8 +206,16 @@ func RunCheck(opts RunOpts, t0 time.Time) (*Outcome, error) {
 	if opts.Tier == "thorough" {
 		so.Timeout1, so.Timeout2, so.CrossCheck = 10, 30, true
 	}
+	var deferred []string
 	filter := func(o *vc.Obligation) bool {
-		return opts.Prop == "" || hasTag(o.Tags, opts.Prop)
+		if !(opts.Prop == "" || hasTag(o.Tags, opts.Prop)) {
+			return false
+		}
+		if o.ThoroughOnly && opts.Tier != "thorough" {
+			deferred = append(deferred, o.Name)
+			return false
+		}
+		return true
 	}
 	results := vc.Solve(vcs, so, filter)
 	out.Results = results
@@ -379,6 +387,7 @@ func RunCheck(opts RunOpts, t0 time.Time) (*Outcome, error) {
 			"mirror_contracts_used":        e.MirrorUsed,
 			"bounded_standins":             []string{},
 			"not_claimed_unstable":         unstable,
+			"deferred_to_thorough_tier":    len(deferred),
 		},
 		"assumptions": assumptionsList(),
 		"wall_s":      round3(time.Since(t0).Seconds()),
